@@ -99,7 +99,7 @@ def crypt_cell(cid, entry, prefix, tailset=None, phrase_len=(0, (1 << 31) - 1), 
 
 # methods whose crypt path the interpreter cannot yet explore within budget (path explosion in the
 # yescrypt parameter/salt parser); they are reported as NOT covered, never as proved
-UNCOVERED = {"$gy$": "gost-yescrypt copies the variable-length setting into its scratch area and re-parses yescrypt's result there: string lengths inside the data object need a relational domain (not analysed)"}
+UNCOVERED = {"$gy$": "gost-yescrypt copies the variable-length setting into its scratch area and re-parses yescrypt's result there: string lengths inside the data object need a relational domain (not analysed for arbitrary settings; the composition grid covers it for exact-length generated settings)"}
 
 
 def build_cells(m, tier):
